@@ -765,13 +765,64 @@ func (ex *extractor) decisions(f *Facts) {
 			return true
 		})
 	}
+	// query copies (join sides, inner arrays of a multi-dimensional FROM): which fields of Query a copy inherits
+	// and how, as sorted `field = value` lines, and how the origin takes over what the copy deferred
+	if fd := ex.funcs["CopyQuery"]; fd != nil && fd.Body != nil {
+		ast.Inspect(fd.Body, func(n ast.Node) bool {
+			cl, ok := n.(*ast.CompositeLit)
+			if !ok || exprText(cl.Type) != "Query" {
+				return true
+			}
+			var lines []string
+			for _, el := range cl.Elts {
+				if kv, ok := el.(*ast.KeyValueExpr); ok {
+					lines = append(lines, exprText(kv.Key)+" = "+stmtText(kv.Value))
+				} else {
+					lines = append(lines, "positional: "+stmtText(el))
+				}
+			}
+			sort.Strings(lines)
+			f.Decisions["copyQuery"] = append(f.Decisions["copyQuery"], lines...)
+			return false
+		})
+		for _, st := range fd.Body.List {
+			if _, ok := st.(*ast.ReturnStmt); !ok {
+				f.Decisions["copyQuery"] = append(f.Decisions["copyQuery"], "stmt: "+stmtText(st))
+			}
+		}
+	}
+	if fd := ex.funcs["Query.adopt"]; fd != nil && fd.Body != nil {
+		for _, st := range fd.Body.List {
+			f.Decisions["copyQuery"] = append(f.Decisions["copyQuery"], "adopt: "+stmtText(st))
+		}
+	}
+	for _, file := range ex.files {
+		ast.Inspect(file, func(n ast.Node) bool {
+			ts, ok := n.(*ast.TypeSpec)
+			if !ok || ts.Name.Name != "Query" {
+				return true
+			}
+			if stt, ok := ts.Type.(*ast.StructType); ok {
+				for _, fl := range stt.Fields.List {
+					for _, nm := range fl.Names {
+						f.Decisions["queryFields"] = append(f.Decisions["queryFields"], nm.Name)
+					}
+				}
+				sort.Strings(f.Decisions["queryFields"])
+			}
+			return false
+		})
+	}
 	if fd := ex.funcs["Query.exec"]; fd != nil && fd.Body != nil {
 		for _, st := range fd.Body.List {
 			txt := stmtText(st)
 			mentions := false
 			ast.Inspect(st, func(n ast.Node) bool {
-				if id, ok := n.(*ast.Ident); ok && (id.Name == "limit" || id.Name == "offset") {
-					mentions = true
+				if id, ok := n.(*ast.Ident); ok {
+					l := strings.ToLower(id.Name)
+					if strings.Contains(l, "limit") || strings.Contains(l, "offset") {
+						mentions = true
+					}
 				}
 				return true
 			})
@@ -1705,7 +1756,7 @@ func main() {
 		}
 		sb.WriteString("def " + k + "Events : List Ev := [" + strings.Join(evs, ", ") + "]\n")
 	}
-	for _, k := range []string{"sortCompare", "window", "join", "stages", "vars"} {
+	for _, k := range []string{"sortCompare", "window", "join", "stages", "vars", "copyQuery", "queryFields"} {
 		sb.WriteString("def decisions" + strings.ToUpper(k[:1]) + k[1:] + " : List String :=\n  " + leanStrList(f.Decisions[k]) + "\n\n")
 	}
 	for _, fn := range []string{"ComparisonExpr", "BinaryExpr", "UnaryExpr"} {
